@@ -553,3 +553,41 @@ Proof.
     rewrite new_truns_idem. rewrite <- T at 1. rewrite <- (app_nil_r (amoof_truns m')).
     rewrite put_moof_self. reflexivity.
 Qed.
+
+(* ------------------------------------------------------------------ idempotence, as stated in the property *)
+Lemma optimize_idem tf tr tf' tr' : optimize tf tr = Ok (tf', tr') -> optimize tf' tr' = Ok (tf', tr').
+Proof. intros H. apply optimised_fix. eapply optimize_optimised. exact H. Qed.
+
+Lemma optimize_traf_idem t t' : optimize_traf t = Ok t' -> optimize_traf t' = Ok t'.
+Proof. intros H. apply traf_optimised_fix. eapply optimize_traf_optimised. exact H. Qed.
+
+Lemma optimize_moof_idem m m' : optimize_moof m = Ok m' -> optimize_moof m' = Ok m'.
+Proof. intros H. apply moof_optimised_fix. eapply optimize_moof_optimised. exact H. Qed.
+
+(* ------------------------------------------------------------------ the C05 fragments inside this model *)
+Lemma of_c05_traf_size t : tf_extra t = 0 -> td_version (tf_dt t) <= 1 -> atraf_size (of_c05_traf t) = traf_size t.
+Proof.
+  intros He Hv. unfold atraf_size, of_c05_traf, traf_size. cbn [map sumN tc_size].
+  assert (M : map tc_size (map TcTrun (tf_truns t)) = map trun_size (tf_truns t)) by (rewrite map_map; reflexivity).
+  rewrite M, He. unfold atfdt_size, tfdt_size.
+  assert (Hc : td_version (tf_dt t) = 0 \/ td_version (tf_dt t) = 1) by lia.
+  destruct Hc as [-> | ->]; cbn [N.eqb Pos.eqb]; lia.
+Qed.
+
+Lemma of_c05_moof_size seq fr :
+  fr_moofx fr = 0 -> Forall (fun t => tf_extra t = 0 /\ td_version (tf_dt t) <= 1) (fr_trafs fr) ->
+  amoof_size (of_c05_moof seq fr) = moof_size fr.
+Proof.
+  intros Hx Ht. unfold amoof_size, of_c05_moof, moof_size. cbn [map sumN mc_size]. rewrite Hx.
+  assert (E : map mc_size (map (fun t => McTraf (of_c05_traf t)) (fr_trafs fr)) = map traf_size (fr_trafs fr)).
+  { induction Ht as [|t l [H1 H2] _ IH]; [reflexivity|]. cbn [map mc_size]. rewrite IH, of_c05_traf_size by assumption. reflexivity. }
+  rewrite E. lia.
+Qed.
+
+Lemma of_c05_truns seq fr : amoof_truns (of_c05_moof seq fr) = all_truns (fr_trafs fr).
+Proof.
+  unfold amoof_truns, of_c05_moof, all_truns. cbn [flat_map mc_truns app].
+  induction (fr_trafs fr) as [|t l IH]; [reflexivity|]. cbn [map flat_map mc_truns]. rewrite IH. f_equal.
+  unfold of_c05_traf, atraf_truns. cbn [flat_map tc_truns app]. induction (tf_truns t) as [|r rs IHr]; [reflexivity|].
+  cbn [map flat_map tc_truns app]. rewrite IHr. reflexivity.
+Qed.
